@@ -254,12 +254,19 @@ def check_input(
                     kwargs[obj_getter] = schema.validate(
                         kwargs[obj_getter], *validate_args
                     )
-                else:
-                    arg_spec_args = _get_fn_argnames(wrapped)
+                elif is_method and len(args) == len(sig.parameters) - 1:
                     pos_args[obj_getter] = schema.validate(
                         pos_args[obj_getter], *validate_args
                     )
                     args = list(pos_args.values())
+                else:
+                    validated = schema.validate(
+                        pos_args[obj_getter], *validate_args
+                    )
+                    # replace the argument where it was passed: rebuilding the
+                    # positional arguments from the bound arguments would
+                    # hand a ``*args`` tuple over as one argument
+                    args[list(pos_args).index(obj_getter)] = validated
             elif obj_getter is None:
                 try:
                     _fn = _unwrap_fn(wrapped)
